@@ -868,8 +868,14 @@ func ruleC01d(c *Ctx) {
 				// the same rewriting written out with the library (what an inlined helper looks like)
 				n := calleeName(&call.Call)
 				rewriting := strings.HasPrefix(n, "(*regexp.Regexp).Replace") || n == "strings.Replace" || n == "strings.ReplaceAll" ||
-					n == "strings.ToLower" || n == "strings.ToUpper" || n == "strings.TrimSuffix" || n == "strings.TrimPrefix" || n == "strings.TrimRight" || n == "strings.TrimLeft" || n == "strings.Trim"
-				if !rewriting || !isStringType(call.Type()) {
+					n == "strings.ToLower" || n == "strings.ToUpper" || n == "strings.TrimSuffix" || n == "strings.TrimPrefix" || n == "strings.TrimRight" || n == "strings.TrimLeft" || n == "strings.Trim" ||
+					n == "net/url.PathUnescape" || n == "net/url.QueryUnescape" || n == "net/url.PathEscape" || n == "net/url.QueryEscape" || n == "html.UnescapeString" || n == "html.EscapeString" ||
+					n == "strings.Map" || n == "strings.Title" || n == "strings.TrimSpace" || n == "strings.TrimFunc" || n == "path.Clean"
+				strRes := isStringType(call.Type())
+				if tup, isTup := call.Type().(*types.Tuple); isTup && tup.Len() > 0 && isStringType(tup.At(0).Type()) {
+					strRes = true
+				}
+				if !rewriting || !strRes {
 					return
 				}
 				dep := false
